@@ -9,4 +9,8 @@ CHECKS = {
    text="TLC checks ReadReturnsLogicalSlice, PosAdvancesByLen, ReadAllReturnsRest, SeekClamps, TellIsPosition, PosInRange (and the truncated-file variant) on the COMPLETE state graph - every seek/read/tell/readall history of any length - of 27 tiny view configurations (offset window, sector stream, sector chain, scaled raw-sector view, reversed view, and the nestings the tool builds, up to depth 4); behaviours (exhaustive depth 2, simulated depth 8-40, medium configurations with reads spanning 1-3 sector boundaries) are replayed call by call into the real classes comparing bytes, positions, return values and error/no-error.",
    note="Trusted: Logical(v), the declarative meaning of a view in Streams.tla; TLC. Geometry is scaled (sector 2-16 bytes); the real 8192/9216/2048 sizes are covered end-to-end by C01/C02/C09. Assumes non-empty, in-range, aligned configurations as the property states.",
    technique="TLC exhaustive model checking of Streams.tla (unbounded history) + replay of TLC-generated behaviours into the implementation"),
+ "C01": dict(
+   text="TLC checks DecodeOfEncodeIsChain (the SAT decoder of AllocTable.tla returns every directory and file chain of every encoded layout), ExtentsTileWindow, OneWavPerSampleOrPair and LayoutSane on EVERY image of a tiny geometry (sector 4, header 2): all placements and orderings of all chains, all word counts, all marker pairs. At the real constants (8192/140/11386) TLC generates images over shape x allocation-class x fill-class x marker x rate x type x directory-style x L/R-pair; an independent writer serialises them, the real export runs, and the set of files, the Exported lines, rate, channel count and per-channel PCM are compared with the image bytes at the extents the specification predicts.",
+   note="Trusted: Headers.tla layouts = what the parser reads (consistency, not hardware truth); AkaiImage.tla's Expected(); the RIFF walker. Names are plain; naming is C05/C06.",
+   technique="TLC exhaustive model checking of AkaiImage.tla (tiny geometry) + TLC-generated images at real constants replayed through the real export"),
 }
